@@ -45,6 +45,12 @@ deriving Repr
 def faults (x : Xml) : List Xml :=
   (x.descendants.filter (·.tag == bodyTag)).flatMap fun b => b.children.filter (·.tag == faultTag)
 
+/-- `int(error_code_str) if error_code_str else None`; the outer `none` = `int()` raised `ValueError` -/
+def faultCode : Option Str → Option (Option Int)
+  | none => some none
+  | some [] => some none
+  | some s => (pyInt? s).map some
+
 /-- `_parse_fault`: `none` = returns normally -/
 def parseFault (x : Xml) (status : Option Int) : Option DExc :=
   match (faults x).head? with
@@ -52,18 +58,10 @@ def parseFault (x : Xml) (status : Option Int) : Option DExc :=
   | some f =>
     if !f.truthy then none            -- `if not fault` is false for a childless element
     else
-      let codeStr := f.findTextDesc errorCodeTag
       let desc := f.findTextDesc errorDescTag
-      let code : Except Unit (Option Int) :=
-        match codeStr with
-        | none => .ok none
-        | some [] => .ok none
-        | some s => match pyInt? s with
-            | some n => .ok (some n)
-            | none => .error ()
-      match code with
-      | .error _ => some .valueError
-      | .ok c =>
+      match faultCode (f.findTextDesc errorCodeTag) with
+      | none => some .valueError
+      | some c =>
         match status with
         | some st => some (.actionResponseError c desc st)
         | none => some (.actionError c desc)
